@@ -1,4 +1,5 @@
 import CattrsModel.Disambig.Values
+import CattrsModel.Disambig.Names
 /-!
 # C12 — automatic union disambiguation never picks the wrong class; it refuses instead
 
@@ -281,5 +282,62 @@ theorem C12_F22_literal_tie_witness :
   ⟨List.reverse, fun l => l, fun l => List.reverse_perm l, fun l => List.Perm.refl l,
    tF22, [0, 1, 2], 1, [("t1", 2), ("t2", 10)],
    wfB_sound (by decide), by decide, by decide, payloadOfB_sound (by decide), by decide, by decide⟩
+
+/-! ## regression witness: a private attribute renamed onto another member's key -/
+
+/-- `Account{_key renamed to "key"}` and `Token{key, ttl = 60}`: both members put the required key `"key"` into their
+unstructured form, neither has a required key of its own. -/
+def tPrivate : Table :=
+  [⟨[⟨"_key", "key", true, Option.none⟩]⟩,
+   ⟨[⟨"key", "key", true, Option.none⟩, ⟨"ttl", "ttl", false, Option.none⟩]⟩]
+
+/-- what a disambiguator sees that misses the override of the private attribute (it looks the override up under
+another spelling -- the `__init__` alias `key` -- finds none and falls back to the attribute NAME) -/
+def tPrivateMissed : Table :=
+  [⟨[⟨"_key", "_key", true, Option.none⟩]⟩,
+   ⟨[⟨"key", "key", true, Option.none⟩, ⟨"ttl", "ttl", false, Option.none⟩]⟩]
+
+/-- The renamed key is what counts.  With the members' real keys the union is refused at hook creation (in every member
+order: `C12_order_create`); a disambiguator that reads the un-renamed name for the private attribute creates the hook
+and structures the unstructured form `{"key": 7}` of an `Account` as a `Token` -- the wrong member, silently.  (The
+payload is an unstructured form of member 0 of the real table and is NOT one of member 0 of the misread table: the
+never-wrong theorem is about the table the hooks really use.)  The check replays the union on the implementation. -/
+theorem C12_private_rename_witness :
+    tPrivate.WF ∧ PayloadOf tPrivate 0 [("key", 7)] ∧
+    resolve SetOrder.id tPrivate [0, 1] [("key", 7)] = .refuseCreate ∧
+    resolve SetOrder.id tPrivate [1, 0] [("key", 7)] = .refuseCreate ∧
+    resolve SetOrder.id tPrivateMissed [0, 1] [("key", 7)] = .ok 1 ∧
+    resolve SetOrder.rev tPrivateMissed [1, 0] [("key", 7)] = .ok 1 :=
+  ⟨wfB_sound (by decide), payloadOfB_sound (by decide), by decide, by decide, by decide, by decide⟩
+
+/-! ## attribute names and `__init__` aliases are irrelevant in the unique-field path -/
+
+/-- **C12_names_irrelevant.**  In a union without Literal-typed attributes (the unique-required-field path) the outcome
+-- which member, `None`, or which refusal -- is a function of the classes' KEY VIEW alone: per attribute the dict key its
+hooks use (`override(rename=...)`, else the name) and whether it has a default.  Two class tables with the same key view
+behave identically for every payload, member order, set iteration order and optional wrapper, whatever the attributes
+are CALLED: private names (`_key`, whose attrs `__init__` alias is `key`), explicit aliases, or a rename that makes the
+name and the key differ.  (With Literal-typed attributes the literal path reads `data[<attribute name>]`: there the
+name of the literal attribute is its key, hypothesis `WF`.) -/
+theorem C12_names_irrelevant (so : SetOrder) (t t' : Table) (h : SameKeyView t t') (hl : NoLits t) (hl' : NoLits t')
+    (hasNone : Bool) (ms : List Nat) (p : Option Payload) :
+    unionStructure so t hasNone ms p = unionStructure so t' hasNone ms p :=
+  unionStructure_sameKeyView h hl hl' so hasNone ms p
+
+/-- non-vacuity: `Account{_key -> "key"}` and the same class with a PUBLIC attribute `key` have the same key view -/
+def tPublic : Table :=
+  [⟨[⟨"key", "key", true, Option.none⟩]⟩,
+   ⟨[⟨"key", "key", true, Option.none⟩, ⟨"ttl", "ttl", false, Option.none⟩]⟩]
+
+example : SameKeyView tPrivate tPublic := by
+  intro i
+  rcases i with _ | _ | i <;> simp [Table.cls, tPrivate, tPublic, CSig.keyView]
+example : NoLits tPrivate ∧ NoLits tPublic := by
+  constructor <;> (intro i f hf; rcases i with _ | _ | i <;> simp [Table.cls, tPrivate, tPublic] at hf <;>
+    (try rcases hf with rfl | rfl) <;> (try subst hf) <;> rfl)
+example : unionStructure SetOrder.id tPublic false [0, 1] (some [("key", 7)]) = .refuseCreate := by decide
+/-- … while the misread table of the witness above does NOT have the key view of the real one -/
+example : ¬ SameKeyView tPrivate tPrivateMissed := by
+  intro h; have := h 0; simp [Table.cls, tPrivate, tPrivateMissed, CSig.keyView] at this
 
 end CattrsModel
